@@ -290,9 +290,9 @@ func checkCall(c callCase) []h.Failure {
 				case "index-get":
 					rv := pool[c.Recv].mk()
 					if n, ok := args[0].(*value.Number); ok {
-						v, err = value.NewArrayIV(rv, int(n.GetValue())).ReduceRHS()
+						v, err = h.ListGet(rv, int(n.GetValue()))
 					} else {
-						v, err = value.NewHashMapIV(rv, args[0].String()).ReduceRHS()
+						v, err = h.DictGet(rv, args[0].String())
 					}
 				case "new":
 					if ce, ok := pool[c.Recv].mk().(r.ConstructableElement); ok {
